@@ -862,9 +862,12 @@ class Object(base.Symbolic, metaclass=ObjectMeta):
       if deep or isinstance(v, base.Symbolic):
         v = base.clone(v, deep, memo)
       kwargs[k] = v
-    return self.__class__(allow_partial=self._allow_partial,
-                          sealed=self._sealed,
-                          **kwargs)  # pytype: disable=not-instantiable
+    cloned = self.__class__(allow_partial=self._allow_partial,
+                            sealed=self._sealed,
+                            **kwargs)  # pytype: disable=not-instantiable
+    # Carry over the accessor-writable flag, which may have been changed on
+    # the instance via `set_accessor_writable`.
+    return cloned.set_accessor_writable(self._accessor_writable)
 
   def _sym_missing(self) -> Dict[str, Any]:
     """Returns missing values."""
